@@ -285,7 +285,14 @@ class EngineSim(TreeSim):
                 ridx = idx if rows is None else pd.DatetimeIndex([pd.Timestamp(d) for d in rows])
                 out[k] = pd.Series([float("nan") if x is None else x for x in v["data"]], index=ridx)
             elif kind == "unit_risk":
-                out[k] = {m: pd.DataFrame(np.array([[float("nan") if x is None else x for x in r] for r in fr["data"]], dtype=float).reshape(len(idx), len(fr["cols"])), index=idx, columns=fr["cols"]) for m, fr in v["measures"].items()}
+                out[k] = {}
+                for m, fr in v["measures"].items():
+                    df = pd.DataFrame(np.array([[float("nan") if x is None else x for x in r] for r in fr["data"]], dtype=float).reshape(len(idx), len(fr["cols"])), index=idx, columns=fr["cols"])
+                    if fr.get("pre"):
+                        # a table with more history than the prices: rows dated before the first date of the data
+                        pidx = pd.DatetimeIndex([pd.Timestamp(d) for d, _row in fr["pre"]])
+                        df = pd.concat([pd.DataFrame(np.array([row for _d, row in fr["pre"]], dtype=float).reshape(len(pidx), len(fr["cols"])), index=pidx, columns=fr["cols"]), df])
+                    out[k][m] = df
             elif kind == "blotter":
                 # a list of executed trades (Date, Security | quantity, price) in whatever order the rows come
                 mi = pd.MultiIndex.from_tuples([(pd.Timestamp(r[0]), r[1]) for r in v["rows"]], names=["Date", "Security"])
@@ -945,8 +952,9 @@ def gen_rebalance_plan(rng, tier="quick"):
     else:
         st += [sched_spec(rng, dates), {"a": "WeighSpecified", "weights": wvec()}]
     if rng.random() < 0.35:
-        cs = [rng.choice([None, 0.1, 0.25, 0.4]) for _ in range(3)]
-        st.append({"a": "SetTemp", "set": {"cash": cs if rng.random() < 0.5 else rng.choice([0.1, 0.3, 0.5])}})
+        # (the whole range of cash fractions: 0 = none set aside, 1 = everything - every target then is zero)
+        cs = [rng.choice([None, 0.1, 0.25, 0.4, 1.0, 0.0]) for _ in range(3)]
+        st.append({"a": "SetTemp", "set": {"cash": cs if rng.random() < 0.5 else rng.choice([0.1, 0.3, 0.5, 1.0])}})
     if rng.random() < 0.25:
         # (no update=False flows here: Rebalance is judged from a delivered state - it reads target.value itself)
         st.insert(0, chaos_spec(rng, ndates, flows=True, capital=capital, deferred=False))
